@@ -63,7 +63,7 @@ type c10State struct {
 	admin string
 	real  bool
 
-	failCommit int32 // != 0: every COMMIT on the hooked connections is refused
+	failCommit int32      // != 0: every COMMIT on the hooked connections is refused
 	pause      *tokPauser // scheduling point in the decorated token repository (c10_engine.go)
 	adminCfg   string     // configured admin token of this case ("" = the default of the configuration)
 }
@@ -547,8 +547,15 @@ func runC10(c *Ctx) error {
 			c.Count("ws:token-check-only")
 		}
 		for _, o := range strings.Split(input, ";") {
+			if strings.HasPrefix(o, "A=") {
+				c.Count(fmt.Sprintf("admin-token:len%03d", len(o)-2))
+				continue
+			}
 			k := strings.SplitN(o, ":", 2)[0]
 			c.Count("op:" + k)
+		}
+		if !strings.HasPrefix(input, "A=") {
+			c.Count("admin-token:default")
 		}
 		c.Count(fmt.Sprintf("len:%02d-%02d", (len(strings.Split(input, ";"))-1)/10*10+1, (len(strings.Split(input, ";"))-1)/10*10+10))
 		return nil
@@ -580,6 +587,23 @@ func runC10(c *Ctx) error {
 	for i, n := 0, c.Pick(150, 2500); i < n; i++ {
 		if err := one(c10Gen(c, 40), "random"); err != nil {
 			return err
+		}
+	}
+	// the admin token is configuration: the same histories with admin tokens shorter / as long as / longer than
+	// the issued tokens and with non-alphanumeric characters (the model is parametric in the admin token)
+	for _, adm := range adminTokenVariants() {
+		for _, h := range []string{
+			"H:adm;W:adm;C:adm:a;H:a;W:a;X;H:adm;H:a;R:adm:a;H:a;R:adm:adm;H:adm;W:adm;H:adm^;H:adm-;W:adm^",
+			"C:adm:a;OVL:a:adm;OVL:adm:a;OVL:u1:adm;RACE:a;H:adm;Cf:adm:b;Rf:adm:a;Wr:adm;Wr:adm-",
+		} {
+			if err := one("A="+adm+";"+h, "admin-variant-fixed"); err != nil {
+				return err
+			}
+		}
+		for i, n := 0, c.Pick(3, 40); i < n; i++ {
+			if err := one("A="+adm+";"+c10Gen(c, 25), "admin-variant-random"); err != nil {
+				return err
+			}
 		}
 	}
 	c.Meta("tokens_generated", fmt.Sprint(len(st.seen)))
